@@ -23,12 +23,14 @@ def main(argv):
     except ValueError:
         seed = 1
     sys.setrecursionlimit(5000)
+    from vf import core
     try:
-        from vf import core
         return core.run_property(pid, tier, seed, replay)
     except BaseException:
         sys.stdout.write(f"HARNESS-ERROR property={pid}\n{traceback.format_exc()}\n")
         return 2
+    finally:
+        core.cleanup_scratch()
 
 
 if __name__ == '__main__':
